@@ -546,6 +546,14 @@ pub fn check_output(lang: &str, out: &str, ce: i64, current_year: i64) -> Result
     if !names.iter().any(|n| n.to_lowercase() == parts[1].to_lowercase()) {
         return Err(format!("printed {:?}: {:?} is not a {} name of month {}", out, parts[1], lang, m));
     }
+    // the two shipped languages print the long name without the year and the short name with it, in the language's
+    // own spelling
+    if let Some((long, short)) = vocab().month_print_names(lang, m as u32) {
+        let want = if want_year { short } else { long };
+        if parts[1] != want {
+            return Err(format!("printed {:?}: the month should be printed {:?}", out, want));
+        }
+    }
     if want_year && parts[2] != y.to_string() {
         return Err(format!("printed {:?}: year should be {}", out, y));
     }
